@@ -117,10 +117,11 @@ func innermostNamed(P *Prog, body *ssa.Function) *ssa.Function {
 }
 
 // consumerLoopRule checks a consumer function `for { m, ok := <-ch; if !ok {return}; ... Write ... }`:
-//   L1 it returns only on the closed-channel edge or after a failed write;
-//   L2 every received message reaches a Write before the next receive, except
-//      along edges accepted by skipOK (the documented filter);
-//   L3 the Write operand is described by operandOK.
+//
+//	L1 it returns only on the closed-channel edge or after a failed write;
+//	L2 every received message reaches a Write before the next receive, except
+//	   along edges accepted by skipOK (the documented filter);
+//	L3 the Write operand is described by operandOK.
 func consumerLoopRule(c *Ctx, rule string, fn *ssa.Function, label string,
 	skipOK func(rs recvSite, cond ssa.Value, taken bool) bool,
 	operandOK func(rs recvSite, w ssa.CallInstruction) (bool, string)) {
